@@ -108,6 +108,37 @@ def run_case(ctx, case):
             r = mh.haar(c, preserve_energy=False, inline=True)
             if not (np.array_equal(np.asarray(c, np.float64), want) and np.shares_memory(r, c)):
                 return Result(False, True, {"why": "inline=True did not transform the input in place"})
+            # in place on every writable layout of the same data (reversed, strided, offset, Fortran views)
+            if case["layout"] != "readonly":
+                v = apply_layout(a0, case["layout"], fill=1)
+                r = mh.haar(v, preserve_energy=False, inline=True)
+                if not np.array_equal(np.asarray(r, np.float64), want) or not np.array_equal(np.asarray(v, np.float64), want):
+                    return Result(False, True, {"why": "haar(inline=True) on a %s view != model (or the view was not transformed)" % case["layout"]})
+            # array-likes that expose their storage without being ndarrays (memoryview, ctypes, __array__): inline=False must
+            # work on a copy -- the caller's storage is untouched and the result is the same
+            import ctypes
+            base = np.ascontiguousarray(a0.astype(np.float64))
+            kb = base.copy()
+
+            class Box:
+                def __init__(self, arr):
+                    self.arr = arr
+
+                def __array__(self, dtype=None, copy=None):
+                    return self.arr
+            ct = ((ctypes.c_double * w) * h)()
+            np.ctypeslib.as_array(ct)[...] = base
+            for name, obj, back in (("memoryview", memoryview(base), lambda: base), ("__array__ container", Box(base), lambda: base),
+                                    ("ctypes array", ct, lambda: np.ctypeslib.as_array(ct))):
+                for fn in (lambda o: mh.haar(o, preserve_energy=False), lambda o: mh.daubechies(o, "D2")):
+                    try:
+                        rr = fn(obj)
+                    except (TypeError, ValueError, AttributeError):
+                        continue        # refusing an array-like is fine; silently overwriting it is not
+                    if not np.array_equal(back(), kb):
+                        return Result(False, True, {"why": "a wavelet transform with inline=False overwrote the storage of its %s argument" % name})
+                    if not np.array_equal(np.asarray(rr, np.float64), want):
+                        return Result(False, True, {"why": "wavelet transform of a %s != model" % name})
         return Result(True, len(set(case["vals"])) > 1, None, "haar/%s/%s" % (dt, "big" if max(h, w) > 8 else "small"))
     # Daubechies
     code = case["code"]
